@@ -31,3 +31,13 @@ func next(t *rt.Thread, c *rt.GoCont) (rt.Cont, error) {
 }
 
 var nextGoFunc = rt.NewGoFunction(next, "next", 2, false)
+
+// The GoFunctions `next` and the ipairs iterator are package-level values shared
+// by all runtimes: their compliance is declared once, here.
+func init() {
+	rt.SolemnlyDeclareCompliance(
+		rt.ComplyCpuSafe|rt.ComplyMemSafe|rt.ComplyTimeSafe|rt.ComplyIoSafe,
+		ipairsIterator,
+		nextGoFunc,
+	)
+}
